@@ -699,7 +699,9 @@ func libraryPre(name string) bool {
 	if strings.Contains(name, "/inv:") || strings.Contains(name, "/rangeinv:") || strings.Contains(name, "/loopframe:") {
 		return true // loop invariants are proof devices: if the loop goes and the contract still proves, nothing is lost
 	}
-	return strings.Contains(name, "/pre:") && !pikePreRe.MatchString(name)
+	// preconditions of callees (library or pike) are obligations of whatever calls exist; that a
+	// particular helper is still called is not a contract clause (inlining a helper is harmless)
+	return strings.Contains(name, "/pre:")
 }
 
 func cmdSelftest(args []string) int { return 2 }
